@@ -192,3 +192,29 @@ def enumerate_unit(unit, classes, maxlen=6, limit=60000):
             if len(out) >= limit:
                 return out
     return out
+
+
+def complete_value(kind):
+    """a minimal complete value starting with a token of `kind`"""
+    if kind in BANG and kind != "XCond":
+        return "!" + BANG[kind] + "(1)"
+    return {"LBrace": "{1}", "LSquare": "[1]", "LParen": "(x)", "XCond": "!cond(1: 1)"}.get(kind, lexeme(kind))
+
+
+def complete_type(kind):
+    return {"Bits": "bits<1>", "List": "list<int>", "Id": "X"}.get(kind, lexeme(kind))
+
+
+def first_set_battery(first_type, first_value):
+    """one text per member of FIRST(Type) / FIRST(Value) in every position where the parser
+    consults a constant token table before descending"""
+    out = []
+    for k in sorted(first_type):
+        t = complete_type(k)
+        out += [f"class C {{ {t} f; }}", f"class C {{ field {t} f = ?; }}", f"def d {{ {t} f; }}"]
+    for k in sorted(first_value):
+        v = complete_value(k)
+        out += [f"def d : A<{v}>;", f"def d : A<1, {v}>;", f"defvar z = A<{v}>;"]
+        if k != "LBrace":
+            out += [f"def {v};", f"defm {v} : M;", f"defvar z = x[1...{v}];"]
+    return out
